@@ -45,6 +45,9 @@ TinyF == {F(1), F(10)}
 NoValues == {}
 FamStreamsQ == 5..6   FamGroupsQ == {5}
 FamStreamsT == 5..8   FamGroupsT == {5, 6}
+\* sizes near the limits: every transition of the graph of indexes of up to 3 Streams / 3 Records built from them
+\* (limit checks of append / stream_padding / cat across several Streams; failed calls are transitions too)
+LimU == {U5, Half}   LimV == {Zero, Half, VliMax}   LimP == {Half}
 HashUB == {U4, U5, Near, UnpaddedMax}   HashVB == {Zero, One, VliMax}
 EncNQ == {0, 1, 127, 128, 300, 16384}
 ParkAQ == {300, 600, 1100, 1600, 2100}   ParkBQ == {100, 500, 1000}
